@@ -231,7 +231,7 @@ def r2_spring_constant(ctx):
     ok = False
     for r in raises:
         conds = conditions_at(r.ast)
-        tx = {(a.text, a.pol) for a in conds}
+        tx = {(a.text, a.pol) for a in conds if not a.expanded}
         if (f"'spring constant' in {arg}.metadata", False) in tx and \
                 (f"'tip position' in {arg}", False) in tx and len(tx) == 2:
             # the test dominates the base append
